@@ -237,7 +237,10 @@ def seeding_history(ctx):
                 ctx.violation('set_seed in the middle of an episode dropped the memoised observation / changed the state', case)
             got = go(a, acts)
             b.set_seed(s1)
-            s = wire.mkstate(cs1)
+            # threaded from a COPY of the state object itself (not from a state rebuilt from its value: a reward computed from numpy-integer
+            # coordinates and one computed from python integers may differ in the last bit -- core.same explains why -- and that is no one's fault)
+            import pickle
+            s = pickle.loads(pickle.dumps(st1))
             exp = []
             for x in acts:
                 try:
